@@ -138,6 +138,8 @@ static Result judge_grow(const Case& c) {
   int kind = (int)c.aux[0]; size_t n = (size_t)c.aux[1];
   if (!(kind == K_INDEFARR || kind == K_INDEFMAP || kind == K_BSTR || kind == K_TSTR)) { r.skipped = true; return r; }
   va::reset_counters(); use_va();
+  // the growth steps of a million-entry container are single requests of tens of MiB: lift the harness cap for this run
+  struct CapGuard { size_t saved; CapGuard() : saved(va::g.single_cap) { va::g.single_cap = (size_t)1 << 30; } ~CapGuard() { va::g.single_cap = saved; } } capguard;
   cbor_item_t* cont = kind == K_INDEFARR ? cbor_new_indefinite_array() : kind == K_INDEFMAP ? cbor_new_indefinite_map() : kind == K_BSTR ? cbor_new_indefinite_bytestring() : cbor_new_indefinite_string();
   std::vector<cbor_item_t*> model;
   size_t prev_alloc = 0; uint64_t growth_requests = 0;   // allocator requests granted inside the insertion calls themselves
